@@ -34,12 +34,16 @@ static int process_data(xfrm_stream_t *stream, const void *in,
 	xfrm_zstd_t *zstd = (xfrm_zstd_t *)stream;
 	ZSTD_outBuffer out_desc;
 	ZSTD_inBuffer in_desc;
+	bool pending;
 	size_t ret;
 
 	if (flush_mode < 0 || flush_mode >= XFRM_STREAM_FLUSH_COUNT)
 		flush_mode = XFRM_STREAM_FLUSH_NONE;
 
-	while (in_size > 0 && out_size > 0) {
+	/* a final flush is only done once ZSTD reports nothing left to flush */
+	pending = zstd->compress && flush_mode == XFRM_STREAM_FLUSH_FULL;
+
+	while ((in_size > 0 || pending) && out_size > 0) {
 		memset(&in_desc, 0, sizeof(in_desc));
 		in_desc.src = in;
 		in_desc.size = in_size;
@@ -60,6 +64,9 @@ static int process_data(xfrm_stream_t *stream, const void *in,
 		if (ZSTD_isError(ret))
 			return XFRM_STREAM_ERROR;
 
+		if (pending && in_desc.pos == in_desc.size)
+			pending = (ret != 0);
+
 		in = (const char *)in + in_desc.pos;
 		in_size -= in_desc.pos;
 		*in_read += in_desc.pos;
@@ -70,7 +77,7 @@ static int process_data(xfrm_stream_t *stream, const void *in,
 	}
 
 	if (flush_mode != XFRM_STREAM_FLUSH_NONE) {
-		if (in_size == 0)
+		if (in_size == 0 && !pending)
 			return XFRM_STREAM_END;
 	}
 
